@@ -308,7 +308,8 @@ func (db *DB) ListKeys() [][]byte {
 	keys := make([][]byte, 0)
 	// 直接通过迭代器遍历获取所有 key
 	for iterator.Rewind(); iterator.Valid(); iterator.Next() {
-		keys = append(keys, iterator.Key())
+		// 索引迭代器返回的可能是索引自身持有的 key 切片, 须拷贝后再交给调用方
+		keys = append(keys, append([]byte(nil), iterator.Key()...))
 	}
 	return keys
 }
